@@ -5,7 +5,7 @@ use crate::obs::{ModelSnap, Node};
 use crate::ops::{Op, K};
 use crate::rng::Rng;
 use crate::world::{World, H};
-use autosar_data::{AutosarModel, AutosarVersion, ElementName};
+use autosar_data::{AutosarModel, AutosarVersion, Element, ElementName};
 use autosar_data_specification::{CharacterDataSpec, ContentMode};
 use std::str::FromStr;
 
@@ -250,6 +250,8 @@ pub struct Gen<'a> {
     pub view: &'a View,
     pub prof: &'a Profile,
     pub max_nodes: usize,
+    /// concurrent scenarios: operands are preferably taken from this neighbourhood, so that clients share elements
+    pub focus: Option<Vec<Element>>,
 }
 
 fn content_mode(n: &Node) -> ContentMode {
@@ -285,6 +287,18 @@ impl<'a> Gen<'a> {
         let len = ms.nodes.len();
         if len == 0 {
             return None;
+        }
+        if let Some(focus) = &self.focus {
+            if !focus.is_empty() && self.rng.chance(3, 4) {
+                let start = self.rng.below(focus.len());
+                for k in 0..focus.len() {
+                    if let Some(i) = ms.by_elem.get(&focus[(start + k) % focus.len()]) {
+                        if pred(&ms.nodes[*i]) {
+                            return Some(&ms.nodes[*i]);
+                        }
+                    }
+                }
+            }
         }
         let start = self.rng.below(len);
         for k in 0..len {
